@@ -16,7 +16,8 @@ impl TryFrom<&[u8]> for RegisterRequest {
 
     fn try_from(data: &[u8]) -> Result<Self, Self::Error> {
         Ok(Self {
-            challenge: data[..32].try_into()?,
+            // A message shorter than the challenge fails the conversion instead of the slicing
+            challenge: data.get(..32).unwrap_or(data).try_into()?,
             application: data[32..].try_into()?,
         })
     }
